@@ -109,6 +109,18 @@ class Summaries:
                 names.add(s["decl"]["name"])
             elif s.k == "MemberExpr":
                 members.add(s["member"])
+            # names whose pointee / element is read ("name*"): killed by a store THROUGH that name, whereas a fact that only
+            # uses the pointer's value (`if (numbers)`) survives such a store
+            if s.k == "ArraySubscriptExpr" or (s.k == "UnaryOperator" and s.get("op") == "*") or (s.k == "MemberExpr" and s.get("arrow")):
+                b = s.child(0).strip_all_casts() if s.ch else None
+                while b is not None and b.k in ("ParenExpr",):
+                    b = b.child(0).strip_all_casts()
+                if b is not None and b.k == "DeclRefExpr" and b["decl"]["kind"] in ("param", "local"):
+                    names.add(b["decl"]["name"] + "*")
+                elif b is not None:
+                    for x in b.walk():
+                        if x.k == "DeclRefExpr" and x["decl"]["kind"] in ("param", "local"):
+                            names.add(x["decl"]["name"] + "*")
         return names, members
 
     def kill_set(self, node):
@@ -129,11 +141,17 @@ class Summaries:
                     members.add(ml[-1])  # the field written (last member of the path)
                 else:
                     r = root_of_path(p)
-                    if r:
-                        names.add(r)  # scalar local, or element of / pointee of local r
                     if p.startswith("*") or "[" in p:
-                        # write through a local pointer: may alias any field
+                        # write through a local pointer / into a local array: may alias any field; kills what is read
+                        # through that name, not facts about the pointer's own value
                         anything = True
+                        if r:
+                            names.add(r + "*")
+                            tk = t.child(0).strip_all_casts().get("tk") if t.ch else None
+                            if tk == "array":
+                                names.add(r)
+                    elif r:
+                        names.add(r)  # scalar local
         if node.k == "CallExpr":
             c = node.get("callee")
             if c is None:
@@ -201,7 +219,11 @@ class Summaries:
                 ns, ms = mentions(nid)
                 if anything and ms:
                     continue
-                if ns & names or ms & members:
+                if ms & members:
+                    continue
+                direct = {x for x in names if not x.endswith("*")}
+                through = {x for x in names if x.endswith("*")}
+                if {x.rstrip("*") for x in ns} & direct or (ns & through):
                     continue
                 out.add((nid, pol))
             return frozenset(out)
